@@ -17,7 +17,7 @@ import json
 import os
 import re
 
-from . import impl, asmrun, polyrun
+from . import impl, asmrun, polyrun, thunkrun
 from .gen import ProgramGen, render, item_text
 
 SYM = {"add": "+", "sub": "-", "mul": "*", "div": "/", "mod": "%", "lshift": "<<", "rshift": ">>", "lsh": "_",
@@ -72,12 +72,18 @@ def sig(r):
 
 
 def check_variants(ctx, what, variants, results, extra=None):
-    """all variants must have the same outcome, base, image and error kinds"""
+    """all variants must have the same outcome, base and image (and, when they succeed, the same warnings aside)"""
     s0 = sig(results[0])
     for (files, _), r in zip(variants[1:], results[1:]):
         if r.outcome in ("crash", "hang"):
             ctx.violation(what + ": a reordered variant ended in " + r.outcome, {"files": files, "base_variant": variants[0][0]}, expected=results[0].summary(), observed=r.exc)
             return False
+        if r.outcome == "failed" and results[0].outcome == "failed":
+            # the property fixes bytes and success/failure; which further reports are reached after the first one that
+            # aborts a statement depends on when values become known, i.e. on the placement
+            if sig(r) != s0:
+                ctx.count(what + ": failed in every placement, with different sets of reports")
+            continue
         if sig(r) != s0:
             ctx.violation(what + ": the result depends on where the definitions stand", dict({"files": files, "base_variant": variants[0][0]}, **(extra or {})),
                           expected=results[0].summary(), observed=r.summary())
@@ -499,7 +505,9 @@ def run(ctx):
                 "program; programs: harness.gen programs (sizes depending on later constants) with one definition moved (3x), all last, all "
                 "shuffled; practice: literal-valued definitions of the 21 practice programs moved to other top-level lines. "
                 "engine: random scripts over deferred.LinearPolynomial (constructor, + * -, promises settled in any order with numbers, "
-                "other promises or polynomials, _substitute_known, wait()) against Model.Poly and integer arithmetic. "
+                "other promises or polynomials, _substitute_known, wait()) against Model.Poly and integer arithmetic; random DAGs of "
+                "deferred.Deferred thunks over promises, waited speculatively and settled in random order, against Model.Thunk and against "
+                "the engine without memory. "
                 "distinct = distinct base programs; non-trivial = at least two definitions")
     th = ctx.thorough
     stream_tables(ctx, rng, 1500 if th else 300)
@@ -510,6 +518,8 @@ def run(ctx):
     stream_practice(ctx, rng, 6 if th else 2, 4 if th else 2)
     # the arithmetic of the lazy engine itself: whatever is settled first, wait() arrives at the arithmetic value
     polyrun.poly_stream(ctx, ctx.rng("c03-poly"), 2000 if th else 400)
+    # memoised thunks: speculative waits and settlements in any order against the engine without memory
+    thunkrun.thunk_stream(ctx, ctx.rng("c03-thunk"), 2500 if th else 500)
 
 
 def search(ctx, broken):
